@@ -48,7 +48,7 @@ CLAIMED = {
  "C02": ("crashmc", "fault_enumeration",
    "exhaustive crash-point enumeration over recorded I/O traces of the real Db: every file-operation boundary (and torn variants) of every edge of the bounded state graph, recovery + prefix oracle on every distinct image, nested crashes during recovery",
    "libc interposition (open/write/ftruncate/fsync/fdatasync/msync/mmap/unlink/rename) plus the mmap-store hook give the ordered list of file mutations of every event; a shadow file system mirrors them (and is compared byte-for-byte with the real files on every execution). For every edge of the graph search (hash+btree, ref-counted+multitree, creation from a non-existent directory) every operation boundary and torn prefixes of writes/stores yield an image that is materialised, opened, read back and matched against S_0..S_n; then a further transaction is committed, driven and survives a reopen; recovery itself is crashed at each of its operations (depth 2).",
-   "Process-crash model (completed writes survive). Bounds per scenario in the evidence. Known finding F-C02-claimed-entries-leak is reported, not failed. Index-growth histories are not in the crash sets yet (C09 not built).",
+   "Process-crash model (completed writes survive). Bounds per scenario in the evidence. Known finding F-C02-claimed-entries-leak is reported, not failed. Index-growth histories are crash-enumerated under C09 and C03.",
    "DESIGN.md §3 E2, §4 C02"),
  "C03": ("seqmc+crashmc", "fault_enumeration",
    "graph search with drop+reopen offered at every pipeline state (clean-shutdown clause) and crash-image enumeration with a durability lower bound derived from observed sync operations (synced-records clause); loom exploration (preemption-bounded DPOR) of the real worker loops with the handle dropped at every reachable point",
@@ -73,7 +73,7 @@ CLAIMED = {
  "C09": ("seqmc+crashmc", "model_checking",
    "explicit-state breadth-first search over the real Db with adversarial key families (identity hashing) and reindex batches as events (one batch per growth, and a growth split into four batches by hook H10); crash-point enumeration over growth edges; loom exploration (preemption-bounded DPOR) of reader threads against a pipeline thread completing a migration, and of the real workers carrying a growth through",
    "From a state with one full 64-entry index page: commits that overflow it (growth 16->17 bits), remove/replace keys still in the old index, build and edit a 3-key collision chain equal in every index-visible bit, overflow the new index's page (second growth from a reindex batch), interleaved with every stage event incl. reindex batches, and reopen; every key ever written is read after every event. Crash scenarios put a crash point at every file operation of every edge of a growth (new index creation, batch records, DropTable, unlink of the old file) with the C02 oracle.",
-   "Bounds per scenario (quick: one commit after the fill; thorough: up to three, growth+crash with a following commit, power loss). Since round 5 also: a key replaced while its page of the new index is full (found D21), a growth in four batches with commits / reopen between the batches. `./check C09` runs two parts side by side: the stepping part (evidence C09.json) and the threaded part (evidence C09-loom.json: growth in progress, reader thread(s) reading keys that still live in the old index while a pipeline thread completes the migration and drops the old index; loom, preemption bound 1 complete, 2 to the wall cap; small-index build). At most 6 reindex-batch events per history. 'Each live key exactly once across index files' needs the file parser (C14, not built).",
+   "Bounds per scenario (quick: one commit after the fill; thorough: up to three, growth+crash with a following commit, power loss). Since round 5 also: a key replaced while its page of the new index is full (found D21), a growth in four batches with commits / reopen between the batches. `./check C09` runs two parts side by side: the stepping part (evidence C09.json) and the threaded part (evidence C09-loom.json: growth in progress, reader thread(s) reading keys that still live in the old index while a pipeline thread completes the migration and drops the old index; loom, preemption bound 1 complete, 2 to the wall cap; small-index build). At most 6 reindex-batch events per history. 'Each live key exactly once across index files' is the file parser's subject (C14).",
    "DESIGN.md §4 C09"),
  "C17": ("admin", "exploration",
    "exhaustive finite sweeps: all 384 option combinations x 3 column positions through the metadata round trip; all layouts x administration calls x {clean, unreplayed logs}; all single-field option mismatches and column-count mismatches",
